@@ -348,6 +348,11 @@ pub enum Forgery {
     /// add / remove one path element
     PathExtra,
     PathShort,
+    /// a key-holding but malicious server: ROOT replaced by the first `len` bytes of the true root
+    /// (0 = empty) and the SREP re-signed with the genuine delegated key
+    ResignedShortRoot(u32),
+    /// the same with a different root of the right width
+    ResignedWrongRoot(u64),
     /// drop the response (timeout path)
     Drop,
     /// deliver the honest response twice
@@ -372,6 +377,11 @@ pub struct SlotSpec {
     pub forgeries: Vec<Forgery>,
     pub sibling_seed: u64,
     pub delay_us: u64,
+    /// honest delegation window relative to the signed midpoint:
+    /// 0 = [0, u64::MAX]; 1 = MINT == MIDP; 2 = MAXT == MIDP; 3 = MINT == MIDP == MAXT;
+    /// 4 = [MIDP-1, MIDP+1]
+    #[serde(default)]
+    pub window: u8,
 }
 
 #[derive(Serialize, Deserialize, Clone, Debug, PartialEq)]
